@@ -59,12 +59,15 @@ FixStep ==
   /\ LET e   == E
          ws  == e.win
          nw  == Len(ws)
-         t2  == IF e.silent THEN e.full ELSE ApplyWindows(toks, ws)
+         spl == IF e.silent THEN e.full ELSE ApplyWindows(toks, ws)      \* what update() is specified to produce
+         t2  == IF e.resync THEN e.full ELSE spl                         \* the list the implementation really has
          named == Range(e.named)
          namedNV == IF e.cls = "CASE" /\ named # {} THEN {toks[i][F_NV] : i \in {j \in 1..Len(toks) : toks[j][F_R] \in named}} ELSE {}
      IN
      \* ---- binding: the model and the implementation are looking at the same list
      /\ Chk("B_AfterIdentity", Us(t2) = e.afterU)
+     \* ---- C18: update() overwrites exactly the analysed windows, last first (the harness sends the full list when it does not)
+     /\ Chk("C18_SpliceExact", e.silent \/ Us(spl) = e.afterU)
      \* ---- C18: the windows are the tokens that were analysed, spliced where they sit, nothing else moves
      /\ Chk("C18_ViaUpdate", ~e.silent)
      /\ Chk("C18_WindowsExact", \A k \in 1..nw : WindowExact(toks, ws[k]))
